@@ -322,10 +322,11 @@ class _Aggregate(Filter):
             ) from e
 
         if current_timestamp - self._last_update >= self._timeout:
-            result = await self._callback(self._sum)
+            # Start the next period before awaiting the callback, so that
+            # values received while it is running are counted exactly once.
+            result, self._sum = self._sum, 0.0
             self._last_update = current_timestamp
-            self._sum = 0.0
-            return result
+            return await self._callback(result)
 
 
 def aggregate(callback: Callback, seconds: float) -> _Aggregate:
